@@ -320,6 +320,41 @@ def to_traces(tid, pcfg, hist, mode, exact=True, int_grammar=None, ev2=None, met
     return p, itrace
 
 
+def wide_ruleset(path):
+    """many one-variable base structures (2-5 groups each) next to the Markov structure with six levels: the shape in which
+    the heap holds many unrelated items while a child may tie its parent exactly (OMEN levels of equal probability stay
+    separate groups).  Probabilities are placeholders: reweight() assigns them in memory."""
+    from . import rulesets
+    terms = {}
+    for t, vals in (('D1', '01234'), ('D2', ['11', '22', '33', '44']), ('D3', ['123', '456', '789']), ('O1', '!@#$%'),
+                    ('O2', ['!!', '@@', '##']), ('K4', ['1qaz', '2wsx', 'zaq1']), ('Y1', ['1999', '2020']), ('X1', ['#1', '<3']),
+                    ('D4', ['1234', '4321', '1111', '2222'])):
+        terms[t] = [(v, 0.5 / (i + 1)) for i, v in enumerate(vals)]
+    base = [(t, 0.09 - 0.001 * i) for i, t in enumerate(terms)] + [('M', 0.1)]
+    rulesets.write_ruleset(path, terms, base, omen_prob=[(lv, 0.3 / (lv + 1)) for lv in range(0, 6)],
+                           omen_keyspace=[(lv, 1) for lv in range(0, 6)])
+
+
+def reweight(pcfg, rng, full=None):
+    """assign new probabilities IN MEMORY (as if the ruleset files had held them): base structures from a small pool (ties
+    frequent), groups of a variable strictly decreasing, Markov levels non-increasing with runs of EQUAL probability"""
+    pool = [0.5, 0.25, 0.2, 0.125, 0.1, 0.3, 0.15, 0.05, 0.0625, 0.04, 1 / 3, 0.07]
+    full = full if full is not None else {t: list(g) for t, g in pcfg.grammar.items()}
+    for b in pcfg.base:
+        b['prob'] = rng.choice(pool)
+    for t, groups in full.items():
+        if not groups:
+            continue
+        k = rng.randint(1, len(groups))
+        if t == 'M':
+            ps = sorted((rng.choice([0.5, 0.5, 0.25, 0.25, 0.125, 0.1]) for _ in range(k)), reverse=True)
+        else:
+            ps = sorted(rng.sample(pool, min(k, len(pool))), reverse=True)
+            k = len(ps)
+        pcfg.grammar[t] = [dict(g, prob=p) for g, p in zip(groups[:k], ps)]
+    return full
+
+
 def n_nodes(sizes):
     t = 0
     for sz in sizes:
